@@ -279,12 +279,13 @@ def extract(res):
         cmd_to_npu = {id(c): o for o, c in (art.op_to_cmd or {}).items()}
         tids = {}
 
-        def tid(t):
-            return tids.setdefault(t.equivalence_id, len(tids) + 1)
+        def tid(t, view):
+            # a reshaped view of the same bytes has another row geometry: judged separately
+            return tids.setdefault((t.equivalence_id, tuple(int(x) for x in t.storage_shape), tuple(int(x) for x in view[:3])), len(tids) + 1)
 
-        def stor_h(t):
+        def stor_h(t, view):
             ss = t.storage_shape
-            return int(ss[-3]) if len(ss) >= 3 else 1
+            return int(ss[1]) if len(ss) == 4 else int(view[1])
 
         stripes, ps_index = [], {}
         for ci, c in enumerate(sg.high_level_command_stream):
@@ -292,7 +293,8 @@ def extract(res):
                 if c.in_tensor.purpose == TensorPurpose.FeatureMap and c.out_tensor.purpose == TensorPurpose.FeatureMap:
                     shp = c.out_tensor.shape
                     h = int(shp[-3]) if len(shp) >= 3 else 1
-                    stripes.append({"dma": True, "w_tid": tid(c.out_tensor), "w_B": stor_h(c.out_tensor), "w_h": h})
+                    v = ([1] * 4 + [int(x) for x in shp])[-4:]
+                    stripes.append({"dma": True, "w_tid": tid(c.out_tensor, v), "w_B": stor_h(c.out_tensor, v), "w_h": h})
                 continue
             if not isinstance(c, NpuStripe):
                 continue
@@ -324,7 +326,8 @@ def extract(res):
                 "ifm_box": [[int(x) for x in c.ifm_box.start_coord], [int(x) for x in c.ifm_box.end_coord]],
                 "cmd_pad": [int(c.pad_top), int(c.pad_bottom)], "first": bool(c.is_first_h_stripe), "last": bool(c.is_last_h_stripe),
                 "hw_pad": [int(pad.top), int(pad.left), int(pad.bottom), int(pad.right)] if pad is not None else None,
-                "ifm_tid": tid(c.ifm_tensor), "ifm_B": stor_h(c.ifm_tensor), "ofm_tid": tid(c.ofm_tensor), "ofm_B": stor_h(c.ofm_tensor),
+                "ifm_tid": tid(c.ifm_tensor, ifm_shape.as_list()), "ifm_B": stor_h(c.ifm_tensor, ifm_shape.as_list()),
+                "ofm_tid": tid(c.ofm_tensor, ps.ofm_shapes[0].as_list()), "ofm_B": stor_h(c.ofm_tensor, ps.ofm_shapes[0].as_list()),
                 "ifm_rank": len(c.ifm_tensor.storage_shape), "ofm_rank": len(c.ofm_tensor.storage_shape),
                 "has_ifm2": c.ifm2_tensor is not None,
                 "ifm2_shape": [int(x) for x in ps.ifm_shapes[1].as_list()] if len(ps.ifm_shapes) > 1 and ps.ifm_shapes[1] is not None else None,
@@ -372,3 +375,111 @@ def extract(res):
             cascades.append({"error": repr(e)[:200]})
         streams.append({"stripes": stripes, "cascades": cascades})
     return streams
+
+
+# ------------------------------------------------------------------------------------------------
+# extra network profiles for C10 (used through pipe_common with make_net / sample_config replaced)
+
+C10_PROFILES = ["c10_pad_tall", "c10_slice", "c10_upscale", "c10_dilated", "c10_pool_chain"]
+
+
+def make_net_c10(rng, idx, profile):
+    import netgen
+    import pipe_common
+
+    if profile == "known_pad_tall":
+        b = netgen.B(rng, f"padtall{idx}", "int8")
+        x = b.input([1, 128, 16, 16])
+        cur = b.conv(x, 16, (3, 3), (1, 1), (1, 1), "SAME")
+        cur = b.pad(cur, [[0, 0], [1, 1], [0, 0], [0, 0]])
+        cur = b.conv(cur, 16, (2, 2), (1, 1), (1, 1), "VALID")
+        cur = b.conv(cur, 16, (3, 3), (3, 3), (1, 1), "SAME")
+        cur = b.conv(cur, 16, (3, 3), (1, 1), (1, 1), "SAME")
+        b.net.desc.append("conv3x3 -> PAD(1,1 rows) -> conv2x2 VALID -> conv3x3/s3 -> conv3x3, IFM 1x128x16x16")
+        return b.finish([cur])
+    if profile == "c10_pad_tall":
+        b = netgen.B(rng, f"pad{idx}", "int8")
+        h, w, c = rng.choice([48, 64, 96, 128]), rng.choice([16, 32]), rng.choice([16, 32])
+        x = b.input([1, h, w, c])
+        cur = b.conv(x, c, (3, 3), (1, 1), (1, 1), "SAME")
+        k = rng.choice([2, 3, 4, 5])
+        t, bo, l, r = (rng.randint(0, k // 2) for _ in range(4))
+        cur = b.pad(cur, [[0, 0], [t, bo], [l, r], [0, 0]])
+        kind = rng.choice(["conv", "dw"])
+        new = b.conv(cur, c, (k, k), (rng.choice([1, 1, 2]),) * 2, (1, 1), "VALID") if kind == "conv" else b.dwconv(cur, (k, k), (1, 1), (1, 1), "VALID")
+        cur = new if new is not None else cur
+        new = b.conv(cur, c, (3, 3), (rng.choice([1, 2, 3]),) * 2, (1, 1), "SAME")
+        cur = new if new is not None else cur
+        cur = b.conv(cur, c, (3, 3), (1, 1), (1, 1), "SAME") or cur
+        b.net.desc.append(f"pad_tall in={[1, h, w, c]} k={k} pads={(t, bo, l, r)} {kind}")
+        return b.finish([cur])
+    if profile == "c10_slice":
+        b = netgen.B(rng, f"slice{idx}", "int8")
+        h, w, c = rng.choice([24, 40, 64]), rng.choice([16, 32]), rng.choice([8, 16])
+        x = b.input([1, h, w, c])
+        cur = b.conv(x, c, (3, 3), (1, 1), (1, 1), "SAME") if rng.random() < 0.5 else x
+        b0, b1 = rng.randint(0, 5), rng.randint(0, 5)
+        cur = b.strided_slice(cur, [0, b0, b1, 0], [1, h - rng.randint(0, 4), w - rng.randint(0, 4), c])
+        k = rng.choice([1, 3, 3, 5])
+        new = b.conv(cur, c, (k, k), (rng.choice([1, 1, 2]),) * 2, (1, 1), rng.choice(["SAME", "VALID"]))
+        cur = new if new is not None else cur
+        cur = b.conv(cur, c, (3, 3), (1, 1), (1, 1), "SAME") or cur
+        b.net.desc.append(f"slice in={[1, h, w, c]} begin={(b0, b1)} k={k}")
+        return b.finish([cur])
+    if profile == "c10_upscale":
+        b = netgen.B(rng, f"up{idx}", "int8")
+        h, w, c = rng.choice([4, 6, 8, 12, 16]), rng.choice([4, 8, 16]), rng.choice([8, 16])
+        x = b.input([1, h, w, c])
+        cur = b.conv(x, c, (3, 3), (1, 1), (1, 1), "SAME") if rng.random() < 0.6 else x
+        if rng.random() < 0.5:
+            new = b.transpose_conv(cur, c, rng.choice([(2, 2), (3, 3), (4, 4)]), (2, 2), rng.choice(["SAME", "VALID"]))
+        else:
+            new = b.resize(cur, rng.choice([2, 2, 4]), rng.choice(["RESIZE_BILINEAR", "RESIZE_NEAREST_NEIGHBOR"]),
+                           *rng.choice([(False, False), (True, False), (False, True)]))
+        cur = new if new is not None else cur
+        cur = b.conv(cur, c, (3, 3), (rng.choice([1, 2]),) * 2, (1, 1), "SAME") or cur
+        b.net.desc.append(f"upscale in={[1, h, w, c]}")
+        return b.finish([cur])
+    if profile == "c10_dilated":
+        b = netgen.B(rng, f"dil{idx}", "int8")
+        h, w, c = rng.choice([24, 33, 48, 64]), rng.choice([16, 32]), rng.choice([8, 16, 32])
+        x = b.input([1, h, w, c])
+        cur = x
+        for _ in range(rng.randint(2, 4)):
+            k = rng.choice([2, 3, 3, 5])
+            d = rng.choice([1, 2, 2, 3])
+            new = b.conv(cur, c, (k, k), (1, 1), (d, d), rng.choice(["SAME", "SAME", "VALID"])) if rng.random() < 0.7 else \
+                b.dwconv(cur, (k, k), (1, 1), (d, d), "SAME")
+            cur = new if new is not None else cur
+        b.net.desc.append(f"dilated in={[1, h, w, c]}")
+        if cur == x:
+            cur = b.unary("RELU", x)
+        return b.finish([cur])
+    if profile == "c10_pool_chain":
+        return netgen.cascade_net(rng, idx, specs=[(rng.choice([2, 3, 4, 5, 7]), rng.choice([1, 2, 3]), rng.choice(["SAME", "VALID"]),
+                                                    rng.choice(["conv", "dw", "pool", "pool"])) for _ in range(rng.randint(2, 4))])
+    return pipe_common._orig_make_net(rng, idx, profile)
+
+
+def sample_config_c10(rng, profile):
+    import pipe_common
+
+    if profile == "known_pad_tall":
+        return ["--accelerator-config", "ethos-u65-256", "--optimise", "Size"]
+    if profile in C10_PROFILES:
+        acc = rng.choice(["ethos-u55-32", "ethos-u55-64", "ethos-u55-128", "ethos-u55-128", "ethos-u55-256", "ethos-u65-256", "ethos-u65-512"])
+        opts = ["--accelerator-config", acc, "--optimise", rng.choice(["Size", "Size", "Size", "Performance"])]
+        if rng.random() < 0.3:
+            opts += ["--arena-cache-size", str(rng.choice([16384, 65536, 131072]))]
+        return opts
+    return pipe_common._orig_sample_config(rng, profile)
+
+
+def install_profiles():
+    import pipe_common
+
+    if not hasattr(pipe_common, "_orig_make_net"):
+        pipe_common._orig_make_net = pipe_common.make_net
+        pipe_common._orig_sample_config = pipe_common.sample_config
+        pipe_common.make_net = make_net_c10
+        pipe_common.sample_config = sample_config_c10
